@@ -27,6 +27,9 @@ type flowsState struct {
 	procs map[string]streamtypes.ProcessorI
 	// engine
 	eng *engineInst
+	// engine2: two overlapping flows
+	specs2 map[string]flow2Spec
+	eng2   *engine2Inst
 	// both
 	keys map[string]bool // counter keys touched by fx ops
 }
@@ -72,7 +75,7 @@ func flowsOp(st *caseState, w []string) string {
 	case "fmode":
 		mode, ok1 := kvS(w, "mode")
 		tmo, ok2 := kvS(w, "timeout")
-		if !ok1 || !ok2 || st.fl != nil || (mode != "direct" && mode != "engine") {
+		if !ok1 || !ok2 || st.fl != nil || (mode != "direct" && mode != "engine" && mode != "engine2") {
 			return "bad-op"
 		}
 		if tmo != "unset" {
@@ -81,7 +84,8 @@ func flowsOp(st *caseState, w []string) string {
 			}
 		}
 		fs := &flowsState{mode: mode, timeout: tmo, keys: map[string]bool{}}
-		if mode == "engine" {
+		if mode == "engine" || mode == "engine2" {
+			fs.specs2 = map[string]flow2Spec{}
 			lo, ok3 := kvI(w, "lo")
 			hi, ok4 := kvI(w, "hi")
 			if !ok3 || !ok4 || tmo == "unset" {
@@ -105,6 +109,19 @@ func flowsOp(st *caseState, w []string) string {
 			return "bad-op"
 		}
 		name := proto.Dec(nameE)
+		if fs.mode == "engine2" {
+			// fproc name=<key> flow=A|B attempts=..: collected; the engine is built by `fbuild`
+			letter, okf := kvS(w, "flow")
+			if !okf || (letter != "A" && letter != "B") || fs.eng2 != nil || cd != 0 || k4 != 0 || att < 1 ||
+				(name != "R" && name != "Q") {
+				return "bad-op"
+			}
+			if _, dup := fs.specs2[letter]; dup {
+				return "bad-op"
+			}
+			fs.specs2[letter] = flow2Spec{key: name, attempts: int(att)}
+			return "ok"
+		}
 		if fs.mode == "engine" {
 			if fs.eng != nil || name != "R" {
 				return "bad-op"
@@ -134,6 +151,28 @@ func flowsOp(st *caseState, w []string) string {
 		}
 		fs.procs[name] = p
 		return "ok"
+	case "fbuild":
+		fs := st.fl
+		if fs == nil || fs.mode != "engine2" || fs.eng2 != nil || len(fs.specs2) == 0 {
+			return "bad-op"
+		}
+		var tmo int64
+		fmt.Sscan(fs.timeout, &tmo)
+		e, err := newEngine2(scratch, fs.specs2, int(fs.lo), int(fs.hi), int(tmo))
+		if err != nil {
+			return classifyInitErr(err)
+		}
+		fs.eng2 = e
+		return "ok"
+	case "fx2":
+		fs := st.fl
+		sE, ok1 := kvS(w, "seq")
+		both, ok2 := kvI(w, "both")
+		status, ok3 := kvI(w, "status")
+		if fs == nil || fs.eng2 == nil || !ok1 || !ok2 || !ok3 || (both != 0 && both != 1) {
+			return "bad-op"
+		}
+		return fs.eng2.respond(proto.Dec(sE), both == 1, int(status))
 	case "fx":
 		fs := st.fl
 		pE, ok0 := kvS(w, "p")
@@ -181,7 +220,7 @@ func flowsOp(st *caseState, w []string) string {
 		fs := st.fl
 		pE, ok0 := kvS(w, "p")
 		sE, ok1 := kvS(w, "seq")
-		if fs == nil || !ok0 || !ok1 {
+		if fs == nil || !ok0 || !ok1 || fs.mode == "engine2" {
 			return "bad-op"
 		}
 		key := counterKey(proto.Dec(pE), proto.Dec(sE))
@@ -194,7 +233,7 @@ func flowsOp(st *caseState, w []string) string {
 		return fmt.Sprintf("ctr=%d", b2i(fs.lctx.GetFlowContext().Exists(key)))
 	case "fleak":
 		fs := st.fl
-		if fs == nil || (fs.mode == "engine" && fs.eng == nil) {
+		if fs == nil || (fs.mode == "engine" && fs.eng == nil) || fs.mode == "engine2" {
 			return "bad-op"
 		}
 		keys := make([]string, 0, len(fs.keys))
